@@ -3,11 +3,22 @@
 CHECKS = {}
 
 
+def miri_shard(pid, seeds=None, extra=()):
+    """The monitor of `pid` under `cargo +nightly miri run` with --tier miri budgets (thorough tier only)."""
+    d = dict(pkg="units", variant="A", args=[pid] + list(extra), miri=True, timeout=5400, tier_arg="miri")
+    if seeds and seeds > 1:
+        d["miri_seeds"] = seeds
+    return d
+
+
 def unit(pid, title, rule, technique, level_text, note, design_ref, floors=None, shards=None,
          exhaustive=False, assumptions=None, parallel=8, **kw):
     if shards is None:
-        def shards(tier, seed, _pid=pid):
-            return [dict(pkg="units", variant="A", args=[_pid])]
+        def shards(tier, seed, _pid=pid, _miri=kw.get("miri_tier")):
+            out = [dict(pkg="units", variant="A", args=[_pid])]
+            if _miri and tier == "thorough":
+                out.append(miri_shard(_pid, _miri))
+            return out
     CHECKS[pid] = dict(title=title, rule=rule, technique=technique, level="exploration",
                        level_text=level_text, level_note=note, design_ref=design_ref,
                        floors=floors or {}, shards=shards, exhaustive=exhaustive,
@@ -24,7 +35,7 @@ unit("C40", "Revisitable group-by partitions its input into maximal runs",
                 "len == count, key shared, adjacent keys differ, partial consumption independent) on an exhaustive small "
                 "domain plus random long sequences. Bounded exploration, not a proof.",
      note="Trusts the 10-line reference partition function in units/src/c40.rs and the verif::rev_group_by wrapper (collects groups).",
-     design_ref="2/C40",
+     design_ref="2/C40", miri=True, miri_tier=1,
      floors={"quick": {"evaluations": 50000, "exhaustive_sequences": 9000}})
 
 # Properties not claimed, with the reason (kept current).
@@ -41,7 +52,7 @@ unit("C23", "In-header metadata fields are isolated and report their own previou
                 "values, and the full buffer) with a bit-vector model. Exhaustive over specs and ops, sampled over header contents.",
      note="Trusts the bit-vector model in units/src/c23.rs; orderings restricted to SeqCst/Relaxed/Acquire (Release orderings on sub-byte "
           "fields panic inside std by construction of the implementation and are outside the property's statement).",
-     design_ref="2/C23", miri=True,
+     design_ref="2/C23", miri=True, miri_tier=1,
      floors={"quick": {"evaluations": 9000000, "ops_with_nonzero_neighbour_bits": 8000000, "cas_expected_ok": 800000,
                        "cas_expected_err": 500000, "ops_wide_field_masked": 300000}})
 
@@ -67,7 +78,7 @@ unit("C33", "Alignment and size arithmetic meet their specifications",
      level_text="Differential test of every rounding helper against its mathematical definition over a boundary lattice plus random inputs; align_allocation is also "
                 "observed inside real bump/LOS allocations with a shadow of the touched memory.",
      note="Inputs whose mathematical result exceeds usize::MAX are excluded (the property's 'does not overflow').",
-     design_ref="2/C33", miri=True,
+     design_ref="2/C33", miri=True, shards=lambda tier, seed: [dict(pkg="units", variant="A", args=["C33"])] + ([miri_shard("C33", None, ["--case", "arith"])] if tier == "thorough" else []),
      floors={"quick": {"arith_lattice_cases": 22000, "arith_random_cases": 2500000, "bump_fast_path": 200000, "bump_slow_path": 1000,
                        "los_allocations": 2000, "max_aligned_size_via_mi_bin_sharp": 296}})
 
@@ -79,7 +90,7 @@ unit("C39", "Option setting is all-or-nothing and parsers match their grammar",
      level_text="Every call's boolean result, the all-or-nothing effect on all options, the parsed value, and bulk = prefix-of-pairs semantics are compared with reference parsers; "
                 "free-standing FromStr parsers likewise. Sampled exploration of the string space.",
      note="Ambiguous strings (e.g. 'Delegated:1024', T suffix, '+0') are recorded as notes, not judged. CPU lists wider than 2000 cores skipped (quadratic sort in the implementation).",
-     design_ref="2/C39", miri=True,
+     design_ref="2/C39",
      floors={"quick": {"single_settings": 250000, "bulk_strings": 50000, "bulk_all_succeed": 10000, "bulk_with_failure": 25000,
                        "set_expected_accept": 40000, "set_expected_reject": 100000, "from_str_invalid": 50000}})
 
@@ -91,7 +102,7 @@ unit("C19", "Block pool never loses or duplicates a block",
      level_text="Real-thread stress of BlockPool with unique block ids; at every quiescent barrier: popped ids were held, no id popped twice, len == pushed - popped, iterate_blocks == held set, "
                 "drain after flush_all == held set. Explores the interleavings the OS scheduler and the failpoints produce.",
      note="Only the protocol BlockPageResource uses is exercised (flush with no push in flight). Interleaving coverage is whatever 8 threads on 16 cores produce; not exhaustive.",
-     design_ref="2/C19", miri=True, parallel=2,
+     design_ref="2/C19", miri=True, parallel=2, miri_tier=3,
      floors={"quick": {"rounds": 9000, "rounds_pop_overlapped_push": 3000, "rounds_with_spill": 4000, "local_queue_spills": 30000,
                        "pop_of_block_pushed_in_same_round": 2000000, "drains": 500, "flush_all": 1200}})
 
@@ -143,7 +154,7 @@ unit("C26", "Free lists allocate disjoint runs and coalesce back completely",
      technique="reference-model monitor: run-partition model vs real free lists, comparing every return value and the walked free structure",
      level_text="Long random histories consistent with the callers' protocols against a partition model: disjointness, size(), alloc fails iff no fitting run, full coalescing back to the initial runs.",
      note="Histories obey the legality rules of the callers (free only run heads, no cross-head coalescing without an uncoalescable boundary). RawMemoryFreeList block sizes restricted to divisors of the table size (the non-divisor case is C27).",
-     design_ref="2/C26", miri=True,
+     design_ref="2/C26", miri=True, miri_tier=1,
      floors={"quick": {"evaluations": 3500000, "op_alloc": 1000000, "op_free": 800000, "op_alloc_from_unit": 500000, "free_coalesced": 400000,
                        "free_blocked_by_uncoalescable": 100000, "free_structure_checks": 40000, "restore_initial_checks": 2000, "histories_freed_everything": 10000}})
 
@@ -171,7 +182,7 @@ unit("C36", "The large-object treadmill accounts for every object exactly once",
      technique="reference-model monitor: four id-set model vs the real TreadMill; every sweep result compared as a set, emptiness predicates compared at six points per cycle, conservation over the history",
      level_text="Histories consistent with the LOS protocol against a four-set model: each sweep returns exactly the unmarked objects of the collected sets once; marked objects are never swept; added == swept overall.",
      note="Object references are synthetic addresses (the treadmill only hashes them).",
-     design_ref="2/C36", miri=True,
+     design_ref="2/C36", miri=True, miri_tier=1,
      floors={"quick": {"evaluations": 40000, "gc_full": 15000, "gc_nursery": 20000, "copy_mature": 300000, "copy_nursery": 200000, "cycles_with_address_reuse": 10000, "histories_concurrent": 100}})
 
 
@@ -621,7 +632,7 @@ unit("C17", "Concurrent forwarding copies an object once and all tracers agree",
      level_text="Per object: ObjectModel::copy called once (0 when the winner declines), exactly one tracer saw the untriggered state, all tracers return the winner's copy (or the unmoved object), no returned word is a stale/half-written pointer or carries state bits; "
                 "final bits/pointer/mark checked. Interleavings = what 2-16 threads on 16 cores plus failpoints produce.",
      note="The trace_object sequences are replicated by the harness from policy/copyspace.rs and immixspace.rs (each needs a real space and GCWorker); the same property is also observed end-to-end by gcsim (copy count per object per GC in ObjectModel::copy).",
-     design_ref="2/C17", miri=True, parallel=2,
+     design_ref="2/C17", parallel=2,
      floors={"quick": {"objects_traced": 360000, "objects_with_2plus_spinning_contenders": 60000, "objects_where_a_tracer_saw_FORWARDED": 20000, "declined_objects_won_again_after_clear": 100000,
                        "failpoint_forward_window_hits": 10000, "failpoint_forward_loser_hits": 8000, "selftest_mutants_caught": 10}})
 
